@@ -183,9 +183,16 @@ def evaluate(world, run):
         if mode == "check" and not faulted:
             inv = "after-fault" if relaxed else "check-mode"
             if accepted and sig is None and code in (0, 1):
-                up_to_date = all(_sha(before, rel) == _golden_sha(g, rel) for rel in AW_FILES)
+                # "a normal run would change nothing": the SDK files and, when --diagnostics is given,
+                # the diagnostics file (a normal run would create / rewrite it)
+                chk_files = list(AW_FILES) + ([step["diag"]] if step.get("diag") else [])
+
+                def _gold(rel):
+                    return _golden_sha(g, "diag.dot" if rel.endswith(".dot") else rel)
+
+                up_to_date = all(_sha(before, rel) == _gold(rel) for rel in chk_files)
                 if code == 0 and not up_to_date:
-                    diff = [rel for rel in AW_FILES if _sha(before, rel) != _golden_sha(g, rel)]
+                    diff = [rel for rel in chk_files if _sha(before, rel) != _gold(rel)]
                     earlier = []
                     for other in run["execs"]:
                         if other["n"] < ex["n"] and other["toggles"] != tog and other["toggles"] not in earlier:
@@ -194,7 +201,7 @@ def evaluate(world, run):
                     name = ("check-passes-on-" + stale) if stale else ("check-passes-on-outdated-" + file_class(diff[0]))
                     viol("C10", inv, name, ex,
                          f"--check exited 0 although {diff} differ from the golden bytes",
-                         {r: _sha(before, r) for r in diff}, {r: _golden_sha(g, r) for r in diff})
+                         {r: _sha(before, r) for r in diff}, {r: _gold(r) for r in diff})
                 if code == 1 and up_to_date and not relaxed:
                     viol("C10", inv, "check-fails-on-up-to-date-sdk", ex,
                          f"--check exited 1 although all files equal the golden bytes; stderr: {ex['stderr'][-300:]!r}")
